@@ -98,6 +98,23 @@ Definition spec_read_ok (meta : option bytes) (ops : list wop) (r : rares) : boo
     end
   end.
 
+(* two lives: r1 = what the first reopen (write mode, after Repair if needed) returned; ops2 = the
+   saves appended afterwards, all completed and closed; r2 = the read after the second reopen.
+   r2 must be exactly r1's log and hard state continued by ops2. *)
+Definition second_life_ok (r1 : rares) (ops2 : list wop) (r2 : rares) : bool :=
+  match r1 with
+  | RAErr _ => true
+  | RAOk m hs ents _ =>
+    match spec_ops (ents, hs) ops2 with
+    | None => true
+    | Some (log, hs') =>
+      match r2 with
+      | RAOk m2 h2 e2 _ => bytes_eqb (opt_bytes m2) (opt_bytes m) && hs_eqb h2 hs' && ents_eqb e2 log
+      | RAErr _ => false
+      end
+    end
+  end.
+
 Fixpoint bprefix (p l : bytes) : bool :=
   match p, l with
   | [], _ => true
